@@ -95,6 +95,27 @@ func (pp *piecePool) qualify(text, src string) *piece {
 		return rej("no-tokens")
 	}
 	body := pt[:len(pt)-1]
+	// `;` inside literals and comments is not a separator: when the Lean model lexer (the reference reading of the text) sees no
+	// SEMICOLON token at all but the lexer under test does, the piece is not "excluded" — that IS the failure
+	if ma, ok := pumpedFromModel(pp.w.Model().Ask("lex " + hexOrDash([]byte(text)))); ok {
+		semi := fmt.Sprint(int(token.SEMICOLON)) + ","
+		modelHas, realHas := false, false
+		for _, t := range strings.Split(ma, ";") {
+			if strings.HasPrefix(t, semi) {
+				modelHas = true
+			}
+		}
+		for _, it := range body {
+			if it.Token == token.SEMICOLON {
+				realHas = true
+			}
+		}
+		if realHas && !modelHas {
+			obs := safeParse([]byte(text), int64(4000*(len(pt)+16)))
+			pp.w.Report(Finding{Kind: "script", Key: "script@semicolon-in-trivia", Input: fmt.Sprintf("%q", text), InputHex: hexs([]byte(text)),
+				Detail: fmt.Sprintf("every `;` of this text is inside a literal or a comment (reference lexer: no SEMICOLON token), yet the lexer emits a SEMICOLON token and Parse returns %d statement(s), err=%v", len(obs.Stmts), errString(obs.Err))})
+		}
+	}
 	hasInsert := false
 	for i, it := range body {
 		switch it.Token {
